@@ -10,6 +10,14 @@ STANDING_ASSUMPTIONS = [
 ]
 
 PROPERTIES = {
+    'C20': {
+        'units': [],
+        'kani': ['hll', 'hll_slow'],
+        'kani_quick': ['hll'],
+        'sample_functions': [],
+        'not_decided': ['hex export/import round trip (unit hll_hex, pending)', 'estimate_count: shift fixed in /repo (17a5c7f); float arithmetic is modelled by neither verifier',
+                        'the 40% error envelope for random elements is a statistical statement about floating point: no contract expresses it'],
+    },
     'C19': {
         'units': ['event', 'tagsjson', 'filter_parse', 'event_parse'],
         'sample_functions': ['Event::from_parts', 'read_tags_array', 'read_tag'],
